@@ -217,7 +217,7 @@ class FlowEmit:
         if not stmts:
             if tail is not None:
                 # a trailing expression of a value-returning function = return
-                if tail[0] == "if" or tail[0] == "block":
+                if tail[0] in ("if", "block", "for"):
                     return self.block([("expr", tail)], None, env, M, ind)
                 if tail[0] == "mcall" and self.is_effect(tail):
                     return self.block([("expr", tail)], None, env, M, ind)
@@ -242,6 +242,20 @@ class FlowEmit:
                 for key in re.findall(r"\{(self\.[a-z_]+)\}", text): text = text.replace("{%s}" % key, env[key][0])
                 ln = self.lname(name)
                 env[name] = (ln, rty, mut)
+                if len(eff) > 3 and eff[3] == "flowcont":
+                    # a call of a translated `&mut self` function returning (): Flow.cont (new state) or panic
+                    stv = [env[k2][0] for k2 in stvar]
+                    return [pad + "match %s with" % text, pad + "| Flow.cont %s =>" % self.tup(stv)] + \
+                        self.block(rest, tail, env, M, ind + 1) + [pad + "| _ => Flow.panic"]
+                if len(eff) > 3 and eff[3] == "flowcall0":
+                    # a call of a translated `&self` function: Flow.ret value, or panic
+                    return [pad + "match %s with" % text, pad + "| Flow.ret %s =>" % ln] + \
+                        self.block(rest, tail, env, M, ind + 1) + [pad + "| _ => Flow.panic"]
+                if len(eff) > 3 and eff[3] == "flowcall":
+                    # a call of another translated `&mut self` function: Flow.ret (value, new state) or panic
+                    stv = [env[k2][0] for k2 in stvar]
+                    return [pad + "match %s with" % text, pad + "| Flow.ret (%s, %s) =>" % (ln, self.tup(stv))] + \
+                        self.block(rest, tail, env, M, ind + 1) + [pad + "| _ => Flow.panic"]
                 if stvar is None:        # a partial pure function: `none` = panic
                     return [pad + "match %s with" % text, pad + "| none => Flow.panic", pad + "| some %s =>" % ln] + \
                         self.block(rest, tail, env, M, ind + 1)
@@ -344,10 +358,11 @@ class FlowEmit:
 
     def retval(self, t, ty, env):
         """what `return e` yields: for a `&mut self` method returning (), the self state"""
+        st = [env["self." + f][0] for f, _ in self.spec.get("self_mut", [])] + [env[p][0] for p in self.spec.get("mut_params", [])]
         if self.spec.get("returns") == "self":
-            return self.tup([env["self." + f][0] for f, _ in self.spec["self_mut"]])
-        if self.spec.get("self_mut"):       # a `&mut self` method with a value: the value and the new state
-            return "(%s, %s)" % (t, self.tup([env["self." + f][0] for f, _ in self.spec["self_mut"]]))
+            return self.tup(st)
+        if st:       # a `&mut self` method with a value: the value and the new state
+            return "(%s, %s)" % (t, self.tup(st))
         return "(%s)" % t
 
     def for_loop(self, e, env, Mh):
@@ -358,6 +373,9 @@ class FlowEmit:
         while x[0] in ("ref", "paren"): x = x[1]
         if x[0] == "mcall" and x[2] == "enumerate": enum = True; x = x[1]
         lst_suffix = ""
+        if x[0] == "mcall" and x[2] == "cloned": x = x[1]
+        if x[0] == "mcall" and x[2] == "rev":
+            lst_suffix = ".reverse"; x = x[1]
         if x[0] == "range" and x[2] is not None:
             a, at = self.ex(x[1], env); b, bt = self.ex(x[2], env)
             if at != "N" or bt != "N": die("range over non-integers")
@@ -379,15 +397,21 @@ class FlowEmit:
             if not (isinstance(pat, tuple) and len(pat) == 2): die("enumerate needs a pair pattern")
             iname, cname = self.lname(pat[0]), self.lname(pat[1])
             benv[pat[0]] = (iname, "N", False); benv[pat[1]] = (cname, ety, False)
+        elif isinstance(pat, tuple):
+            if not ety.startswith("T("): die("tuple pattern over non-tuples")
+            tys = split_top(ety[2:-1])
+            if len(tys) != len(pat): die("tuple pattern arity")
+            for pn, pty in zip(pat, tys): benv[pn] = (self.lname(pn), pty, False)
+            cname = "(" + ", ".join(self.lname(pn) for pn in pat) + ")"
         else:
-            if isinstance(pat, tuple): die("pattern")
             cname = self.lname(pat); benv[pat] = (cname, ety, False)
         body_lines = self.block(body[1], body[2], benv, Mh, 2)
         # immutable variables of the enclosing scope the body mentions become parameters of the loop function
         text = "\n".join(body_lines)
         closed = [(v2[0], v2[1]) for k2, v2 in env.items() if not v2[2] and re.search(r"(?<![A-Za-z0-9_.])%s(?![A-Za-z0-9_])" % re.escape(v2[0]), text)]
         closed = list(dict.fromkeys(closed))
-        sig = " ".join("(%s : %s)" % (n, lty(t, self.structs)) for n, t in self.fixed + [c for c in closed if c not in self.fixed])
+        sig = " ".join(["(%s : %s)" % (n, t) for n, t in self.fixed] +
+                       ["(%s : %s)" % (n, lty(t, self.structs)) for n, t in closed if (n, t) not in self.fixed])
         st_names = self.tup([x[1] for x in Mh])
         stty = self.tupty(Mh)
         idx = " (%s : Nat)" % iname if enum else ""
@@ -426,10 +450,14 @@ def emit_flow(fn, text, spec, structs):
         env[pn] = (em.lname(pn), ty, False); params.append((em.lname(pn), ty, False))
     for pn, ty in spec.get("extra", []):
         env[pn] = (pn, ty, False); params.append((pn, ty, False))
+    for pn in spec.get("mut_params", []):      # `&mut` parameters: part of the state the function yields
+        env[pn] = (env[pn][0], env[pn][1], True)
     M0 = em.muts(env)
+    for pn in spec.get("mut_locals", []):      # `mut x: T` parameters: local mutable copies
+        env[pn] = (env[pn][0], env[pn][1], True)
     if spec.get("returns") == "self":
         em.rho = em.tupty(M0)
-    elif spec.get("self_mut"):
+    elif M0:
         em.rho = "(%s) × %s" % (lty(spec["returns"], structs), em.tupty(M0))
     else:
         em.rho = lty(spec["returns"], structs)
